@@ -1,4 +1,5 @@
 CONSTANTS
+  AnyOrder = FALSE
   MinItems = 0
   NC = 1
   L = 8
